@@ -111,6 +111,23 @@ func c13errClass(e string) string {
 	case strings.HasPrefix(e, "no destination MAC address for "):
 		return "nomac:" + strings.TrimPrefix(e, "no destination MAC address for ")
 	}
+	// other wordings: the statement asks that the record STATES the cause, not for these exact texts
+	l := strings.ToLower(e)
+	switch {
+	case strings.Contains(l, "too long"):
+		return "toolong"
+	case strings.Contains(l, "mac"):
+		if i := strings.LastIndexByte(e, ' '); i >= 0 && strings.Count(e[i+1:], ".") == 3 {
+			return "nomac:" + e[i+1:]
+		}
+		return "nomac:?"
+	case strings.Contains(l, "port"):
+		return "port"
+	case strings.Contains(l, "json") || strings.Contains(l, "unmarshal") || strings.Contains(l, "invalid character") || strings.Contains(l, "unexpected end") || strings.Contains(l, "syntax"):
+		return "json"
+	case strings.Contains(l, "address") || strings.Contains(l, "ipv4") || strings.Contains(l, "ipv6") || strings.Contains(l, " ip") || strings.HasPrefix(l, "ip ") || strings.HasSuffix(l, " ip"):
+		return "address"
+	}
 	return "other:" + e
 }
 
